@@ -43,10 +43,11 @@ One == <<1, 1>>
 Aff(a, b) == [k |-> "aff", a |-> a, b |-> b, s |-> "unk", es |-> "none", cst |-> FALSE]
 Sgn(s, es) == [k |-> "sgn", a |-> Zero, b |-> Zero, s |-> s, es |-> es, cst |-> FALSE]
 ValAt(x, av) == RAdd(RMul(av.a, x), av.b)                 \* value of an affine form at the sample x
-SignAt(x, av) == IF av.k = "aff" THEN RSign(ValAt(x, av)) ELSE av.s
+SignAt(x, av) == IF av.k = "aff" THEN RSign(ValAt(x, av))
+                 ELSE IF av.k = "abs" THEN (IF RSign(ValAt(x, av)) = "zero" THEN "zero" ELSE "pos") ELSE av.s
 Bad(s) == s \in {"nan", "inf"}
 \* constant on the whole cell: an affine form of slope 0, or a node all of whose arguments are constant
-IsConst(av) == (av.k = "aff" /\ av.a = Zero) \/ (av.k = "sgn" /\ av.cst)
+IsConst(av) == (av.k \in {"aff", "abs"} /\ av.a = Zero) \/ (av.k = "sgn" /\ av.cst)
 
 Flip(s) == CASE s = "neg" -> "pos" [] s = "pos" -> "neg" [] OTHER -> s
 MulS(s, t) == IF s = "nan" \/ t = "nan" THEN "nan"
@@ -99,7 +100,8 @@ EvalNode0(env, node, x) ==
        [] node.op = "log1p" -> IF sA \in {"pos", "zero"} THEN Sgn(sA, "none") ELSE Sgn("unk", "none")
        [] node.op = "tanh" -> IF Bad(sA) THEN Sgn("unk", "none") ELSE Sgn(sA, "none")
        [] node.op = "logistic" -> IF sA = "nan" THEN Sgn("nan", "none") ELSE Sgn("pos", "none")
-       [] node.op = "abs" -> IF Bad(sA) THEN Sgn(sA, "none") ELSE Sgn(IF sA = "zero" THEN "zero" ELSE IF sA = "unk" THEN "unk" ELSE "pos", "none")
+       [] node.op = "abs" -> IF A.k = "aff" THEN [k |-> "abs", a |-> A.a, b |-> A.b, s |-> (IF sA = "zero" THEN "zero" ELSE "pos"), es |-> "none", cst |-> FALSE]
+                             ELSE IF Bad(sA) THEN Sgn(sA, "none") ELSE Sgn(IF sA = "zero" THEN "zero" ELSE IF sA = "unk" THEN "unk" ELSE "pos", "none")
        [] node.op = "xexpm1" -> IF Bad(sA) THEN Sgn("unk", "none") ELSE Sgn("pos", "none")    \* x/(exp(x)-1) > 0 everywhere
        [] node.op = "pow2" -> Sgn(MulS(sA, sA), "none")
        [] node.op = "pow3" -> Sgn(MulS(sA, MulS(sA, sA)), "none")
@@ -121,16 +123,16 @@ EnvFor(p, x) == Run(<<Aff(One, Zero)>>, Progs[p].nodes, 1, x)      \* env[1] is 
 Lo(p) == <<Progs[p].lo[1], Progs[p].lo[2]>>
 Hi(p) == <<Progs[p].hi[1], Progs[p].hi[2]>>
 Samples(p) == {Lo(p), Hi(p), RDiv(RAdd(Lo(p), Hi(p)), <<2, 1>>)}
+Cmp == {"lt", "gt", "le", "ge", "eq", "ne"}
 RootsAt(p, x) ==
   LET env == EnvFor(p, x)
       nodes == Progs[p].nodes
-  IN { RDiv(RNeg(env[i].b), env[i].a) : i \in {j \in 2..Len(env) : env[j].k = "aff" /\ env[j].a # Zero} }
-     \cup { LET A == ArgVal(env, nodes[i].args[1])  B == ArgVal(env, nodes[i].args[2])
-            IN RDiv(RNeg(RSub(A.b, B.b)), RSub(A.a, B.a))
-            : i \in {j \in 1..Len(nodes) : nodes[j].op \in {"min", "max"}
-                                            /\ ArgVal(env, nodes[j].args[1]).k = "aff"
-                                            /\ ArgVal(env, nodes[j].args[2]).k = "aff"
-                                            /\ ArgVal(env, nodes[j].args[1]).a # ArgVal(env, nodes[j].args[2]).a} }
+      A(j) == ArgVal(env, nodes[j].args[1])
+      B(j) == ArgVal(env, nodes[j].args[2])
+  IN { RDiv(RNeg(env[i].b), env[i].a) : i \in {j \in 2..Len(env) : env[j].k \in {"aff", "abs"} /\ env[j].a # Zero} }
+     \cup { RDiv(RNeg(RSub(A(i).b, B(i).b)), RSub(A(i).a, B(i).a))
+            : i \in {j \in 1..Len(nodes) : nodes[j].op \in {"min", "max"} \cup Cmp
+                                            /\ A(j).k = "aff" /\ B(j).k = "aff" /\ A(j).a # B(j).a} }
 \* iterate once more with the roots themselves as samples (pieces selected only near a breakpoint)
 Roots1(p) == UNION {RootsAt(p, x) : x \in Samples(p)}
 RootsOf(p) == Roots1(p) \cup UNION {RootsAt(p, x) : x \in Roots1(p)}
@@ -142,6 +144,19 @@ CellsOf(p) == LET s == Sorted(Points(p) \cup {Lo(p), Hi(p)}) IN
               {[pt |-> TRUE, x |-> q, lo |-> q, hi |-> q] : q \in Points(p)} \cup
               {[pt |-> FALSE, x |-> Mid(s[i], s[i + 1]), lo |-> s[i], hi |-> s[i + 1]] : i \in 1..(Len(s) - 1)}
 
+\* thresholds the program itself tests around a root: |a v + b| < c (c constant) switches at distance c/|a| from the
+\* root -b/a.  Reported per point cell (the sum root +- delta would overflow TLC's 32-bit rationals); the harness
+\* turns every (root, delta) into obligations at root +- delta (and +- ulps) and log-spaced points around them.
+RAbs(q) == IF q[1] < 0 THEN RNeg(q) ELSE q
+ThreshAt(p, x) ==
+  LET env == EnvFor(p, x)
+      nodes == Progs[p].nodes
+      A(j) == ArgVal(env, nodes[j].args[1])
+      B(j) == ArgVal(env, nodes[j].args[2])
+  IN { RAbs(RDiv(B(i).b, A(i).a)) : i \in {j \in 1..Len(nodes) : nodes[j].op \in Cmp /\ Len(nodes[j].args) = 2 /\ A(j).k = "abs" /\ A(j).a # Zero
+                                             /\ B(j).k = "aff" /\ B(j).a = Zero /\ RDiv(RNeg(A(j).b), A(j).a) = x} }
+     \cup { RAbs(RDiv(A(i).b, B(i).a)) : i \in {j \in 1..Len(nodes) : nodes[j].op \in Cmp /\ Len(nodes[j].args) = 2 /\ B(j).k = "abs" /\ B(j).a # Zero
+                                             /\ A(j).k = "aff" /\ A(j).a = Zero /\ RDiv(RNeg(B(j).b), B(j).a) = x} }
 OutSigns(p, x) == LET env == EnvFor(p, x) IN
                   [i \in 1..Len(Progs[p].outs) |-> SignAt(x, ArgVal(env, Progs[p].outs[i]))]
 BadNodes(p, x) == LET env == EnvFor(p, x) IN {i - 1 : i \in {j \in 2..Len(env) : env[j].k = "sgn" /\ Bad(env[j].s)}}
@@ -155,7 +170,8 @@ Next == UNCHANGED <<prog, cell>>
 \* one line per (program, cell): the harness turns every cell into concrete obligations
 Report == PrintT(<<"CELL", ToJson([prog |-> prog, pt |-> cell.pt, x |-> cell.x, lo |-> cell.lo, hi |-> cell.hi,
                                    signs |-> OutSigns(prog, cell.x), bad |-> BadNodes(prog, cell.x),
-                                   const |-> OutConst(prog, cell.x)])>>)
+                                   const |-> OutConst(prog, cell.x),
+                                   thr |-> IF cell.pt THEN ThreshAt(prog, cell.x) ELSE {}])>>)
 \* the abstract claim itself (checked as an invariant in the `strict` configuration only; the registered
 \* checks use Report and confirm every abstract nan/inf concretely before reporting it)
 NoNaN == BadNodes(prog, cell.x) = {}
